@@ -98,6 +98,26 @@ def _linen(fails):
       except Exception as e:  # noqa
         fails.append(dict(inputs=inp, observed=f'raised {type(e).__name__}: {e}'[:300], violated='name-at-stacking-axis'))
         return cases
+  # a variable whose value is a CONTAINER of boxed arrays keeps its boxes when raw arrays are assigned to it
+  cases += 1
+
+  class Stats(nn.Module):
+    @nn.compact
+    def __call__(self, x):
+      s = self.variable('stats', 's', lambda: {'mean': meta.Partitioned(jnp.zeros((DIN,)), names=('feat',)), 'count': meta.Partitioned(jnp.zeros(()), names=())})
+      if not self.is_initializing():
+        s.value = {'mean': s.value['mean'] + x.mean(0), 'count': s.value['count'] + 1.0}
+      return x
+  vs0 = Stats().init(jax.random.key(0), x)
+  _, upd = Stats().apply(vs0, x, mutable=['stats'])
+  bx = upd['stats']['s']
+  if not (isinstance(bx['mean'], meta.Partitioned) and isinstance(bx['count'], meta.Partitioned) and tuple(bx['mean'].names) == ('feat',)):
+    fails.append(dict(inputs=dict(api='linen Variable.value setter', value='dict of Partitioned arrays assigned raw arrays'),
+                      observed=f'after the assignment the variable holds {jax.tree_util.tree_map(lambda v: type(v).__name__, bx, is_leaf=lambda v: isinstance(v, meta.Partitioned))}: the boxes (and their axis names) are gone', violated='boxes-kept'))
+    return cases
+  if not np.allclose(np.asarray(bx['count'].value), 1.0) or nn.get_partition_spec(upd)['stats']['s']['mean'] != P('feat'):
+    fails.append(dict(inputs=dict(api='linen Variable.value setter', value='dict of Partitioned arrays assigned raw arrays'), observed='values / partition spec wrong after the assignment', violated='boxes-kept'))
+    return cases
   # nested: scan inside vmap and vmap inside scan
   for outer, ks, kv in itertools.product(('vmap', 'scan'), (0, 1), (0, 2)):
     cases += 1
@@ -180,6 +200,33 @@ def _nnx(fails):
   return cases
 
 
+def _nnx_rules(fails):
+  """nnx.get_partition_spec with sharding rules: a name with a rule is translated, every other name (e.g. the partition name a
+  transform inserted) is passed through unchanged"""
+  import jax
+  import jax.numpy as jnp
+  from flax import nnx
+  P = jax.sharding.PartitionSpec
+  cases = 0
+  for sharding, rules, want in (
+      (('a', 'layers'), (('a', 'X'),), ('X', 'layers')),
+      (('layers', 'a', None), (('a', 'X'), ('b', 'Y')), ('layers', 'X', None)),
+      (('a', 'b'), (('a', 'X'), ('b', 'Y')), ('X', 'Y')),
+      (('a', 'b'), (), ('a', 'b')),
+      (('c',), (('a', 'X'),), ('c',))):
+    cases += 1
+
+    class M(nnx.Module):
+      def __init__(self):
+        self.w = nnx.Param(jnp.ones((2,) * len(sharding)), sharding=sharding, sharding_rules=rules)
+    spec = nnx.get_partition_spec(nnx.state(M()))
+    got = spec['w'].value if hasattr(spec['w'], 'value') else spec['w']
+    if got != P(*want):
+      fails.append(dict(inputs=dict(api='nnx.get_partition_spec', sharding=list(sharding), sharding_rules=[list(r) for r in rules]), observed=f'{got} instead of {P(*want)}', violated='partition-spec-names'))
+      return cases
+  return cases
+
+
 def _logical(fails):
   import flax.linen as nn
   from flax.linen import spmd
@@ -209,7 +256,7 @@ def _logical(fails):
 
 def run(tier, seed):
   cases, fails = 0, []
-  for part in (_linen, _nnx, _logical):
+  for part in (_linen, _nnx, _nnx_rules, _logical):
     try:
       cases += part(fails)
     except Exception:
@@ -219,7 +266,7 @@ def run(tier, seed):
       break
   return dict(name=NAME, cases=cases, distinct=cases,
               bound='linen.scan stacking axis {0,1,2} x 5 variable_axes layouts (plain / In / Out, both orders) + 8 nested scan/vmap cases; nnx vmap/scan: ranks 1-3 x every sharding prefix x every stacking axis; '
-                    '_logical_to_mesh_axes: 4 name tuples x all ordered triples of 12 rules',
+                    'nnx.get_partition_spec under 5 sharding-rule sets; a linen variable holding a dict of boxes; _logical_to_mesh_axes: 4 name tuples x all ordered triples of 12 rules',
               failures=fails[:2], error=None)
 
 
